@@ -21,7 +21,7 @@ META = {
     ],
     "bounds": {
         "quick": "family F + 24 seeded random shapes; batch sizes 1..3 (rotating per shape); default and rotating interpolation codes; clipping on/off; all N x npars parameters and N datasets symbolic",
-        "thorough": "family F x batch sizes 1..4 + 200 seeded random shapes x 2 batch sizes",
+        "thorough": "family F x batch sizes 1..4 + 400 seeded random shapes x 2 batch sizes",
     },
     "stubs": ["poisson_dist(...).sample / normal_dist(...).sample -> fresh symbolic tensor of the documented shape"],
     "outside_claim": ["batch sizes beyond 4", "other backends", "distribution of samples (C14)"],
@@ -29,7 +29,7 @@ META = {
 
 
 def _family(tier, seed):
-    return shapes.family_core() + shapes.family_plus(seed, 24 if tier == "quick" else 200)
+    return shapes.family_core() + shapes.family_plus(seed, 24 if tier == "quick" else 400)
 
 
 def items(tier, seed):
